@@ -563,7 +563,7 @@ size_t eval_code(int code, const Model &m, uint16_t v)
     case CAP_M1: return m.cap ? m.cap - 1 : 0;
     case CAP: return m.cap;
     case CAP_P1: return m.cap + 1;
-    case RND: return v % 301;
+    case RND: return v >= 62000 ? 301 + (size_t)(v - 62000) % 4000 : v % 301;     // mostly <= 300, some up to ~4300 elements
     case LIM_M1: return L ? L - 1 : 0;
     case LIM: return L;
     case LIM_P1: return L + 1;
@@ -873,8 +873,11 @@ void vf_gen(Rng &r, std::vector<uint8_t> &out)
             out.push_back(r.byte());
             bool rnd = idx_arg ? r.chance(9, 10) : r.chance(6, 10);
             out.push_back(CODEBYTE[idx_arg][rnd ? RND : SMALL[r.below(12)]]);
-            out.push_back((uint8_t)r.below(24));
-            out.push_back(0);
+            // sizes: mostly tiny (many scripts, short fault sets), some in the hundreds / thousands (growth policies
+            // that only engage above a threshold)
+            uint32_t sz = r.chance(3, 4) ? r.below(24) : r.chance(1, 2) ? 200 + r.below(101) : 62000 + r.below(3500);
+            out.push_back((uint8_t)sz);
+            out.push_back((uint8_t)(sz >> 8));
         }
         return;
     }
